@@ -114,16 +114,29 @@ class ReverseProxy(TcpUpstreamConnectionHandler, HttpWebServerBasePlugin):
                 if self.choice.scheme == HTTP_PROTO
                 else self.choice.port or DEFAULT_HTTPS_PORT
             )
-            self.initialize_upstream(text_(self.choice.hostname), port)
-            assert self.upstream
+            addr = (text_(self.choice.hostname), port)
+            if self.upstream and (
+                self.upstream.closed or self.upstream.addr != addr
+            ):
+                # Previous request of this client went elsewhere
+                if not self.upstream.closed:
+                    self.upstream.close()
+                self.upstream = None
             try:
-                self.upstream.connect()
-                if self.choice.scheme == HTTPS_PROTO:
-                    self.upstream.wrap(
-                        text_(self.choice.hostname),
-                        as_non_blocking=True,
-                        ca_file=self.flags.ca_file,
-                    )
+                # Requests of a client connection to the same upstream
+                # share one upstream connection, which keeps their
+                # responses in request order.
+                if self.upstream is None:
+                    self.initialize_upstream(*addr)
+                    assert self.upstream
+                    self.upstream.connect()
+                    if self.choice.scheme == HTTPS_PROTO:
+                        self.upstream.wrap(
+                            text_(self.choice.hostname),
+                            as_non_blocking=True,
+                            ca_file=self.flags.ca_file,
+                        )
+                assert self.upstream
                 request.path = self.choice.remainder
                 self.upstream.queue(
                     memoryview(
